@@ -28,6 +28,7 @@ let parse_op (s : string) : C17Model.op =
   | "cmpf", [k; l] -> C17Model.OCmpF (ni k, ni l)
   | "lf", [k; h] -> C17Model.OLayer (kind_of k, bytes_of_hex h)
   | "pk", [h] -> C17Model.OPacket (bytes_of_hex h)
+  | "seq", k :: m :: hs -> C17Model.OSeq (kind_of k, (String.length m > 0 && m.[0] = 'r'), Stdlib.List.map bytes_of_hex hs)
   | _ -> failwith ("c17 op: " ^ s)
 
 let ev (v : C17Model.eview) =
@@ -46,6 +47,11 @@ let show (o : C17Model.obs) : string =
   | C17Model.BFlow f -> "cls=ok;f=" ^ fv f
   | C17Model.BBoth (e, f) -> "cls=ok;e=" ^ ev e ^ ";f=" ^ fv f
   | C17Model.BCmpE (eq, lt, gt, look) -> Printf.sprintf "eq=%d;lt=%d;gt=%d;look=%d" (b01 eq) (b01 lt) (b01 gt) (b01 look)
+  | C17Model.BSeq fs ->
+    "seq=" ^ String.concat "|" (Stdlib.List.map (function
+      | Base.Ok f -> "ok:" ^ fv f
+      | Base.Err c -> (match int_of_z c with 98 -> "unmodelled" | _ -> "err")
+      | Base.Panic _ -> "panic") fs)
   | C17Model.BStack (l, n, t) ->
     let o = function Some f -> fv f | None -> "-" in
     Printf.sprintf "cls=ok;l=%s;n=%s;t=%s" (o l) (o n) (o t)
@@ -78,6 +84,7 @@ let coq_op (o : C17Model.op) = match o with
   | C17Model.OCmpF (k, l) -> Printf.sprintf "OCmpF %s %s" (coq_nat k) (coq_nat l)
   | C17Model.OLayer (k, d) -> Printf.sprintf "OLayer %s %s" (coq_kind k) (coq_zlist d)
   | C17Model.OPacket d -> "OPacket " ^ coq_zlist d
+  | C17Model.OSeq (k, r, ps) -> Printf.sprintf "OSeq %s %s %s" (coq_kind k) (coq_bool r) (coq_list coq_zlist ps)
 let coq_ev (v : C17Model.eview) =
   Printf.sprintf "(mkEV %s %s %s)" (coq_z v.C17Model.ev_typ) (coq_zlist v.C17Model.ev_raw) (coq_z v.C17Model.ev_hash)
 let coq_fv (v : C17Model.fview) =
@@ -91,11 +98,14 @@ let coq_obs (o : C17Model.obs) = match o with
   | C17Model.BBoth (e, f) -> Printf.sprintf "BBoth %s %s" (coq_ev e) (coq_fv f)
   | C17Model.BCmpE (a, b, c, d) -> Printf.sprintf "BCmpE %s %s %s %s" (coq_bool a) (coq_bool b) (coq_bool c) (coq_bool d)
   | C17Model.BCmpF (a, b, c) -> Printf.sprintf "BCmpF %s %s %s" (coq_bool a) (coq_bool b) (coq_bool c)
+  | C17Model.BSeq fs -> "BSeq " ^ coq_list (function
+      | Base.Ok f -> "(Ok " ^ coq_fv f ^ ")" | Base.Err c -> "(Err " ^ coq_z c ^ ")" | Base.Panic c -> "(Panic " ^ coq_z c ^ ")") fs
   | C17Model.BStack (l, n, t) -> Printf.sprintf "BStack %s %s %s" (coq_option coq_fv l) (coq_option coq_fv n) (coq_option coq_fv t)
 let to_coq (idx : int) (ops : string list) (out : out_channel) =
   let l = Stdlib.List.map parse_op ops in
   let nbytes = Stdlib.List.fold_left (fun a o -> match o with
-    | C17Model.OLayer (_, d) | C17Model.OPacket d -> a + Stdlib.List.length d | _ -> a) 0 l in
+    | C17Model.OLayer (_, d) | C17Model.OPacket d -> a + Stdlib.List.length d
+    | C17Model.OSeq (_, _, ps) -> Stdlib.List.fold_left (fun a d -> a + Stdlib.List.length d) a ps | _ -> a) 0 l in
   if nbytes <= 600 then
     coq_example out idx ("run_trace " ^ coq_list coq_op l)
       ("[" ^ String.concat ";\n     " (Stdlib.List.map coq_obs (C17Model.run_trace l)) ^ "]")
